@@ -20,6 +20,11 @@ type Twin struct {
 	CommitsAt []int    // commits after operation i
 	Calls     []int    // numbered database calls made while operation i ran
 	Kinds     [][]dbwrap.Kind
+	Info      [][]dbwrap.CallInfo // kind, calling functions and key of every numbered call of operation i (RunTwinInfo)
+	// the whole database at the end (RunTwinInfo; see store.go), and what of it is not comparable
+	Store           map[string]string
+	VolatileKeys    map[string]bool
+	VolatileBuckets map[string]bool
 	OpErr     []bool // operation i reported an error in the undisturbed run
 	Snap      []string // snapshot after operation i (only when wanted)
 	Seen      map[wire.Hash]bool // blocks that have been on the wallet's synced chain
@@ -32,7 +37,29 @@ type Violation struct {
 }
 
 // RunTwin replays the script undisturbed, counting commits and database calls per operation.
-func RunTwin(s *Script, trace, snaps bool) (*Twin, error) {
+func RunTwin(s *Script, trace, snaps bool) (*Twin, error) { return runTwin(s, trace, snaps, false) }
+
+// RunTwinInfo is RunTwin(s, true, true) that also records, for every numbered call of every
+// operation, the wallet functions that made it and its key (Twin.Info).
+func RunTwinInfo(s *Script) (*Twin, error) {
+	t, err := runTwin(s, true, true, true)
+	if err != nil {
+		return nil, err
+	}
+	// a second undisturbed replay tells which database contents are not a function of the script
+	t2, err := runTwin(s, false, false, true)
+	if err != nil {
+		return nil, err
+	}
+	if t.Store != nil && t2.Store != nil {
+		t.VolatileKeys, t.VolatileBuckets = volatileKeys(t.Store, t2.Store)
+	} else {
+		t.Store = nil
+	}
+	return t, nil
+}
+
+func runTwin(s *Script, trace, snaps, info bool) (*Twin, error) {
 	r, err := NewRun(s)
 	if err != nil {
 		return nil, err
@@ -44,11 +71,27 @@ func RunTwin(s *Script, trace, snaps bool) (*Twin, error) {
 	}
 	t := &Twin{}
 	for i := range s.Ops {
-		ctl.Arm(0, 0, trace)
+		if info {
+			ctl.ArmSet(nil, true)
+		} else {
+			ctl.Arm(0, 0, trace)
+		}
 		out := r.Exec(i)
 		n := ctl.Disarm()
 		if !out.Done {
 			return nil, fmt.Errorf("twin: operation %d did not complete", i)
+		}
+		if info {
+			ci := ctl.CallInfos()
+			if len(ci) > n {
+				ci = ci[:n]
+			}
+			t.Info = append(t.Info, ci)
+			ks := make([]dbwrap.Kind, len(ci))
+			for x := range ci {
+				ks[x] = ci[x].Kind
+			}
+			ctl.Trace = ks
 		}
 		op := &s.Ops[i]
 		switch op.Kind {
@@ -81,6 +124,9 @@ func RunTwin(s *Script, trace, snaps bool) (*Twin, error) {
 		}
 	}
 	t.Commits = ctl.NCommits()
+	if info {
+		t.Store, _ = r.StoreDump()
+	}
 	t.Final = r.Snapshot()
 	t.Seen = r.Seen
 	t.Lines = append(r.Lines, "E")
